@@ -27,13 +27,21 @@ func init() {
 				Rule: fmt.Sprintf("all histories of depth <= %d over {session A,B} x {seq 1,2,3,4,5,253,254,255} x {handler replies, replies+registers a continuation, registers a continuation without replying}, "+
 					"plus all histories of depth <= %d over {session A,B} x {type 1,2,3} x {seq 1,3,5} x {replies, replies+continuation}; each executed on a fresh scripted connection of the real server; after every event the invoked handler instance, the bytes written and the open/closed state are compared with the connection model; "+
 					"sub-trees are pruned only when model and implementation agree that the connection is closed. states = distinct model states, transitions = events executed on the implementation, "+
-					"traces = maximal histories on which every step agreed; distinct_nontrivial = distinct histories containing at least one rejected or continuation-dispatched packet", d, d-1),
+					"plus (engine E2) every script of 2-3 PIPELINED packets over {A:1,A:3,A:2,A:5,B:1,B:3} on a plain and on a single-connect connection, fed before the server has answered anything, every schedule with <= 1 (quick) / 2 (thorough) deviations: handler instances, their order and the replies must be what the model says when it judges the packets one after the other. traces = maximal histories on which every step agreed; distinct_nontrivial = distinct histories containing at least one rejected or continuation-dispatched packet", d, d-1),
 				Assumptions: []string{"mc/ref/connmodel.go is the reference; in the one corner the statement leaves open (request 255 whose reply cannot be sent while a continuation is registered) the model accepts both forgetting the session and keeping it, never a dispatch to the stale continuation"},
 				Extra:       map[string]interface{}{"depth": d, "alphabet_size": 48}}
 		},
-		Workers: constInt(16, 16),
-		Run:     c08Run,
-		Replay:  c08Replay,
+		Workers:      constInt(16, 16),
+		SchedWorkers: constInt(8, 8),
+		Run: func(c *Ctx) {
+			if c.Param == "sched" {
+				schedRun(c)
+				return
+			}
+			c08Run(c)
+		},
+		Replay: c08Replay,
+		Post:   schedPost,
 	}
 }
 
